@@ -6,6 +6,7 @@ mod p_c03;
 mod p_c04;
 mod p_c05;
 mod p_c07;
+mod p_c08;
 mod p_c19;
 mod delivery;
 mod spec;
@@ -79,6 +80,7 @@ fn main() {
                 "C04" => p_c04::generate(seed, tier, &mut sink),
                 "C05" => p_c05::generate(seed, tier, &mut sink),
                 "C07" => p_c07::generate(seed, tier, &mut sink),
+                "C08" => p_c08::generate(seed, tier, &mut sink),
                 "C19" => p_c19::generate(seed, tier, &mut sink),
                 _ => {
                     eprintln!("unknown property {}", prop);
